@@ -61,6 +61,20 @@ impl Record {
     }
 }
 
+#[cfg(memcrs_verif)]
+impl Record {
+    /// verification hook: read-only view (timestamp, cas, flags, time_to_live, value)
+    pub fn verif_view(&self) -> (u64, u64, u32, u32, &[u8]) {
+        (
+            self.header.timestamp,
+            self.header.cas,
+            self.header.flags,
+            self.header.time_to_live,
+            &self.value[..],
+        )
+    }
+}
+
 impl PartialEq for Record {
     fn eq(&self, other: &Self) -> bool {
         self.value == other.value
